@@ -273,7 +273,8 @@ def check_property(pid, tier, only_group=None, only_unit=None, verbose=False):
         wall_s=round(time.time() - t0, 2),
         violations=len(violations),
     )
-    if not os.environ.get('VF_NO_EVIDENCE'):
+    # evidence is written only by full property runs (a --group/--unit run covers part of the property)
+    if not os.environ.get('VF_NO_EVIDENCE') and not only_group and not only_unit:
         os.makedirs(os.path.join(VERIF, 'evidence'), exist_ok=True)
         with open(os.path.join(VERIF, 'evidence', pid + '.json'), 'w') as f:
             json.dump(ev, f, indent=1)
